@@ -692,6 +692,8 @@ func (in *Interp) toDec(v Value) *DecV {
 	return d
 }
 
+var unicodeReps = []rune{0x100, 0x101, 0x3b1, 0x410, 0x661, 0x966, 0x300, 0x2003, 0x2028, 0x3000, 0x20ac, 0x4e2d, 0xfffd, 0x1d11e, 0x1f600, 0x10fffd}
+
 func registerStubs(w *World) {
 	S := w.Stubs
 	// ---- sync: single-threaded interpretation, locks are no-ops ----
@@ -771,11 +773,30 @@ func registerStubs(w *World) {
 			if v, ok := r.Int64Val(); ok {
 				return BoolC(f(rune(v)))
 			}
-			k, ok := in.concretize("unicode."+name, r, 0, 255)
-			if !ok {
-				in.unsupported("unicode." + name + " on a symbolic code point above U+00FF")
+			if in.branch(Le(r, IntC(255))) {
+				k, ok := in.concretize("unicode."+name, r, 0, 255)
+				if !ok {
+					in.unsupported("unicode." + name + " on a symbolic code point")
+				}
+				return BoolC(f(rune(k)))
 			}
-			return BoolC(f(rune(k)))
+			// above Latin-1 the tables have no closed form: the code point is
+			// narrowed to one of a battery of representatives of the general
+			// categories (letters of both cases, digits, marks, spaces, symbols,
+			// CJK, the replacement character, astral and last-plane code points);
+			// other values of the code point are outside the claim
+			in.Assumptions["unicode."+name+" above U+00FF: decided for 16 representative code points"] = true
+			reps := unicodeReps
+			alts := make([]*Term, len(reps))
+			for i, c := range reps {
+				alts[i] = Eq(r, IntC(int64(c)))
+			}
+			k := in.decide("unicode."+name, alts)
+			if k < 0 {
+				in.end("assumed", "code point outside the representative battery")
+			}
+			in.addPC(alts[k])
+			return BoolC(f(reps[k]))
 		}
 	}
 	latin1("IsDigit", unicode.IsDigit)
@@ -820,6 +841,29 @@ func registerStubs(w *World) {
 		bs := in.encodeRune(a[1].(*Term))
 		in.builderAppend(a[0], bs)
 		return TupleV{IntC(int64(len(bs))), NilIface}
+	}
+	S["(*strings.Builder).Write"] = func(in *Interp, fn *ssa.Function, a []Value) Value {
+		sl := a[1].(SliceV)
+		if sl.Arr != nil && sl.Arr.Abs != nil {
+			in.unsupported("strings.Builder.Write of abstract text")
+		}
+		bs := make([]*Term, sl.Len)
+		for i := 0; i < sl.Len; i++ {
+			t, ok := sl.Arr.Elems[sl.Off+i].(*Term)
+			if !ok {
+				in.unsupported("strings.Builder.Write of non-byte elements")
+			}
+			bs[i] = t
+		}
+		in.builderAppend(a[0], bs)
+		return TupleV{IntC(int64(sl.Len)), NilIface}
+	}
+	S["(*strings.Builder).Reset"] = func(in *Interp, fn *ssa.Function, a []Value) Value {
+		builderBuf(in, a[0]).Store(SliceV{})
+		return nil
+	}
+	S["(*strings.Builder).Cap"] = func(in *Interp, fn *ssa.Function, a []Value) Value {
+		return IntC(int64(builderBuf(in, a[0]).Load().(SliceV).Cap))
 	}
 	S["(*strings.Builder).WriteString"] = func(in *Interp, fn *ssa.Function, a []Value) Value {
 		s := a[1].(*StrV)
